@@ -310,6 +310,26 @@ static void execSet(const lg::Pair &p, const std::vector<std::string> &w, const 
   tN2kMsg m; int ub0 = g_ub;
   p.set(m, v.data());
   checkUb(p, ub0, "the setter");
+  // the setter's output must not depend on the history of the message object: the same call on an object that
+  // already holds (1) a message of the SAME PGN with other values, (2) a message of ANOTHER PGN, (3) arbitrary
+  // content with the same PGN already stored - always the bytes of the fresh object (self-contained: replays)
+  {
+    std::vector<lg::Val> z(p.nf);                       // all-zero tuple, empty strings
+    const lg::Pair *other = nullptr;
+    for (int k = 0; k < lg::nPairs && !other; k++) if (lg::pairs[k].pgn != p.pgn) other = &lg::pairs[k];
+    for (int h = 0; h < 3; h++) {
+      tN2kMsg r;
+      if (h == 0) { p.set(r, z.data()); }
+      else if (h == 1 && other) { std::vector<lg::Val> zo(other->nf); other->set(r, zo.data()); }
+      else { r.PGN = p.pgn; r.DataLen = 40; memset(r.Data, 0xa5, 40); r.Priority = 1; }
+      p.set(r, v.data());
+      C.count("history_checks");
+      if (r.PGN != m.PGN || r.DataLen != m.DataLen || memcmp(r.Data, m.Data, m.DataLen) || r.Priority != m.Priority)
+        C.fail(key(p, "history", h == 0 ? "same-pgn" : h == 1 ? "other-pgn" : "stale"),
+               "setter on a used message object gives PGN %lu, %d bytes %s; on a fresh one PGN %lu, %d bytes %s", r.PGN, r.DataLen,
+               hex(r.Data, std::min(r.DataLen, 223)).c_str(), m.PGN, m.DataLen, hex(m.Data, m.DataLen).c_str());
+    }
+  }
   L.payloadHex = hex(m.Data, m.DataLen); L.valid = true;
   if (m.PGN != p.pgn) C.fail(key(p, "guard", "setpgn"), "setter produced PGN %lu", m.PGN);
   // what the model prints
@@ -348,6 +368,15 @@ static void execParse(const lg::Pair &p, const std::vector<std::string> &w, cons
   u64 js = Ctx::hash(line);
   tN2kMsg m; fillMsg(m, pgn, bytes, js);
   std::vector<lg::Val> v(p.nf), v2(p.nf);
+  // `cap=a,b,…`: the size the caller passes for each caller-sized text buffer (in field order); default 300
+  std::vector<int> caps(p.nf, 300); bool capsGiven = false;
+  if (w.size() > 4 && w[4].compare(0, 4, "cap=") == 0) {
+    capsGiven = true; size_t pos = 4;
+    for (int i = 0; i < p.nf && pos <= w[4].size(); i++) if (p.f[i].sizedBuf) {
+      caps[i] = atoi(w[4].c_str() + pos); size_t c = w[4].find(',', pos); pos = c == std::string::npos ? w[4].size() + 1 : c + 1;
+    }
+  }
+  for (int i = 0; i < p.nf; i++) { v[i].cap = caps[i]; v2[i].cap = caps[i]; }
   int ub0 = g_ub;
   bool ok = p.parse(m, v.data());
   checkUb(p, ub0, "the parser");
@@ -376,6 +405,7 @@ static void execParse(const lg::Pair &p, const std::vector<std::string> &w, cons
   // junk independence: same message, different junk behind the payload
   tN2kMsg m2; fillMsg(m2, pgn, bytes, js ^ 0x5bd1e995ULL);
   bool ok2 = p.parse(m2, v2.data());
+  for (int i = 0; i < p.nf; i++) if (v[i].overrun || v2[i].overrun) { /* reported per field below */ }
   for (int i = 0; i < p.nf; i++)
     if (p.f[i].inParser && (!ok2 || !sameVal(p.f[i], v[i], v2[i]))) C.fail(key(p, p.f[i].name, "junk"), "result depends on bytes behind the payload length");
   // truncation: the same message cut to EVERY shorter length, parsed twice with different garbage behind DataLen -
@@ -414,7 +444,16 @@ static void execParse(const lg::Pair &p, const std::vector<std::string> &w, cons
     } else if (f.kind == lg::K_TEXT) {
       std::string want = in.v.s;
       if (f.textLen > 0 && (int)want.size() > f.textLen) want.resize(f.textLen);
-      if (v[i].s != want) C.fail(key(p, f.name, in.cls), "text '%s' set, '%s' parsed", want.c_str(), v[i].s.c_str());
+      if (f.sizedBuf) {
+        // each string against ITS OWN buffer size: cut to size-1 characters and terminated; nothing behind the buffer
+        // may be written; a buffer of size 0 is not touched at all
+        if (v[i].overrun) { C.fail(key(p, f.name, "overrun"), "text '%s' into a buffer of %d bytes: bytes behind the buffer were written", want.c_str(), caps[i]); continue; }
+        if (v[i].unterminated) { C.fail(key(p, f.name, "unterminated"), "text '%s' into a buffer of %d bytes is not terminated", want.c_str(), caps[i]); continue; }
+        if (caps[i] == 0) continue;
+        if ((int)want.size() > caps[i] - 1) want.resize(caps[i] - 1);
+        C.count(capsGiven ? "sized_buffer_checks" : "default_buffer_checks");
+      }
+      if (v[i].s != want) C.fail(key(p, f.name, capsGiven ? "bufsize" : in.cls), "text '%s' expected (buffer %d bytes), '%s' parsed", want.c_str(), caps[i], v[i].s.c_str());
     } else {
       if (v[i].i != in.v.i) C.fail(key(p, f.name, in.cls), "%lld set, %lld parsed", in.v.i, v[i].i);
     }
@@ -612,6 +651,22 @@ static void runCase(const lg::Pair &p, const std::vector<Cell> &cells, Rng &r, b
   exec(s, &cls);
   const std::string hexp = g_last[p.id].payloadHex;
   exec(std::string("parse ") + p.id + " " + std::to_string(p.pgn) + " " + hexp);
+  {
+    // caller-sized text buffers: an independent size per buffer (0, 1, 2, around the text, around the field width, large)
+    std::string caps; int n = 0;
+    for (int i = 0; i < p.nf; i++) if (p.f[i].sizedBuf) {
+      int wdt = textWidth(p.f[i]), len = (int)cells[i].v.s.size();
+      int choices[] = {0, 1, 2, len, len + 1, len + 2, wdt, wdt + 1, wdt + 7, 300, (int)r.below(40), (int)r.below(300)};
+      caps += (n++ ? "," : "") + std::to_string(std::max(0, choices[r.below(12)]));
+    }
+    if (n) for (int k = 0; k < 2; k++) {
+      exec(std::string("parse ") + p.id + " " + std::to_string(p.pgn) + " " + hexp + " cap=" + caps);
+      // second round: a different size for every buffer
+      std::string c2; int m_ = 0;
+      for (int i = 0; i < p.nf; i++) if (p.f[i].sizedBuf) c2 += (m_++ ? "," : "") + std::to_string((int)r.below(2) ? (int)r.below(48) : 1 + (int)r.below(4));
+      caps = c2;
+    }
+  }
   if (foreign) {
     static const unsigned long others[] = {0, 59904, 60928, 126996, 127250, 129029, 130306, 65286, 130823};
     unsigned long o = r.chance(1, 2) ? others[r.below(9)] : (r.chance(1, 2) ? p.pgn + 1 : p.pgn - 1);
